@@ -11,6 +11,13 @@ PV = {1: 0.3, 2: 1.1}
 INPUTS = {1: [1, 0], 2: [1, 1]}
 BRIGHT = {1: 1.0, 2: 0.6}
 BACKENDS = {1: "permanent", 2: "slos"}
+PURITY = {1: 1.0, 2: 0.9}
+EFF = {1: 1.0, 2: 0.5}
+
+
+def ps_factory(m):
+    """closures made by ONE factory share their code object and differ only in the captured mode"""
+    return lambda s: s[m] >= 1
 
 
 class World:
@@ -28,6 +35,11 @@ class World:
             self.circ[name] = c
         self.psx = lw.PostSelection()
         self.psx.add(0, (0, 1))
+        self.closures = {2: ps_factory(0), 3: ps_factory(1)}
+        self.src = emu.Source(brightness=BRIGHT[1], purity=PURITY[1])        # the shared Source object S
+        self.det = emu.Detector(efficiency=EFF[1])                          # the shared Detector object D
+        self.aps = lw.PostSelection()                                        # the Analyzer's PostSelection object
+        self.aps.add(0, (0, 1))
 
     def edit(self, c):
         self.circ[c].bs(0, 1, reflectivity=0.3)
@@ -35,14 +47,21 @@ class World:
     def mutate_ps(self):
         self.psx.add(1, (1, 2))
 
+    def mutate_aps(self):
+        self.aps.add(1, 0)
+
+    def ps_of(self, tok):
+        return None if tok == 0 else self.psx if tok == 1 else self.closures[tok]
+
 
 def make(kind, world, cfg):
     if kind == "sampler":
-        return emu.Sampler(world.circ[cfg["circ"]], lw.State(INPUTS[cfg["inp"]]), source=emu.Source(brightness=BRIGHT[cfg["br"]]),
-                           backend=BACKENDS[cfg["be"]])
+        src = world.src if cfg.get("src") else emu.Source(brightness=BRIGHT[cfg["br"]])
+        kw = {"detector": world.det} if cfg.get("det") else {}
+        return emu.Sampler(world.circ[cfg["circ"]], lw.State(INPUTS[cfg["inp"]]), source=src, backend=BACKENDS[cfg["be"]], **kw)
     kw = dict(photon_counting=bool(cfg["pnr"]))
     if cfg["ps"]:
-        kw["post_select"] = world.psx
+        kw["post_select"] = world.ps_of(cfg["ps"])
     return emu.QuickSampler(world.circ[cfg["circ"]], lw.State(INPUTS[cfg["inp"]]), **kw)
 
 
@@ -95,6 +114,7 @@ def replay_behaviour(states, kind):
         obj = make(kind, world, cfg)
     else:
         an = emu.Analyzer(world.circ["A"])
+        an.post_selection = world.aps
     for i, st in enumerate(states[1:], 1):
         name, arg = st["last"]
         script.append((name, arg))
@@ -126,7 +146,20 @@ def _apply(kind, world, obj, an, name, arg, cfg, out, i, script):
         elif name == "set_backend":
             obj.backend = BACKENDS[arg]
         elif name == "set_ps":
-            obj.post_select = world.psx if arg else None
+            obj.post_select = world.ps_of(arg)
+        elif name == "use_shared_source":
+            obj.source = world.src if arg else emu.Source(brightness=BRIGHT[cfg["br"]])
+        elif name == "mutate_source":
+            if arg[0] == "sb":
+                world.src.brightness = BRIGHT[arg[1]]
+            else:
+                world.src.purity = PURITY[arg[1]]
+        elif name == "use_shared_detector":
+            obj.detector = world.det if arg else emu.Detector()
+        elif name == "mutate_detector":
+            world.det.efficiency = EFF[arg]
+        elif name == "mutate_analyzer_ps":
+            world.mutate_aps()
         elif name == "mutate_ps":
             world.mutate_ps()
         elif name == "set_pnr":
@@ -137,6 +170,13 @@ def _apply(kind, world, obj, an, name, arg, cfg, out, i, script):
                 r = an.analyze(ins, expected={ins: lw.State([1, 0])})
             else:
                 r = an.analyze(ins)
+            fresh = emu.Analyzer(world.circ["A"])
+            fresh.post_selection = world.aps
+            rf = fresh.analyze(ins)
+            same_out = [tuple(o.s) for o in r.outputs] == [tuple(o.s) for o in rf.outputs]
+            if not same_out or np.abs(np.array(r.array) - np.array(rf.array)).max() > 1e-12 or abs(r.performance - rf.performance) > 1e-12:
+                out.append(("stale/analyzer/analyze", i, "analyze() on the long-lived Analyzer differs from a freshly created Analyzer with the same settings "
+                            "(outputs %s vs %s; history %s)" % ([tuple(o.s) for o in r.outputs], [tuple(o.s) for o in rf.outputs], script), {"call": "Analyzer.analyze"}))
             has = hasattr(r, "error_rate")
             if has != bool(arg):
                 out.append(("analysis_own", i, "analyze(expected %s) returned a result that %s error_rate" %
